@@ -88,7 +88,7 @@ impl Ctx {
             counters: BTreeMap::new(),
             max_queue: 0,
             new_states_by_quarter: [0; 4],
-            track_distinct: true,
+            track_distinct: !cfg!(miri),
             aux_sets: BTreeMap::new(),
         }
     }
